@@ -339,6 +339,15 @@ func CustomCase(r *rand.Rand, name string, o CustomOpts) *Case {
 		tS.Fields = append(tS.Fields, F("Rec", Ptr(Named(T))))
 		kindsUsed["recursive"] = true
 	}
+	if r.Intn(3) == 0 {
+		// mutual recursion through a second struct, placed BEFORE the hooked fields: the helper for the pointer is
+		// built before the helper it calls learns that it has to return an error
+		ms := decl("MutS", Struct(F("Back", Ptr(Named(S))), F("K", Basic("int"))))
+		mt := decl("MutT", Struct(F("Back", Ptr(Named(T))), F("K", Basic("int"))))
+		sS.Fields = append([]*Field{F("Mut", Ptr(Named(ms)))}, sS.Fields...)
+		tS.Fields = append([]*Field{F("Mut", Ptr(Named(mt)))}, tS.Fields...)
+		kindsUsed["mutual"] = true
+	}
 	flags := vref.Flags{}
 	if sameType {
 		convLines = append(convLines, "skipCopySameType")
